@@ -11,6 +11,8 @@ import PygProofs.Lemmas.BitempLemmas
 import PygProofs.Lemmas.BitempInv
 import PygProofs.Lemmas.BitempFrames
 import PygProofs.Lemmas.BitempCols
+import PygProofs.Lemmas.BitempFirstS
+import PygProofs.Lemmas.BitempEmb
 
 namespace Pyg.Props.C17
 open Pyg Pyg.Bitemp
@@ -1011,5 +1013,58 @@ theorem frame_default_read_cells (w : Nat) (log : List (Int × TSF)) (h : Ordere
 
 example : OrderedFF 2 frameDemo :=
   ⟨by simp [frameDemo], by decide, fun d => List.Pairwise.sublist List.filter_sublist (by decide)⟩
+
+
+/-! ### `what='first'` against the publication log (`specFirstS`, `firstNonNanSpec`: Lemmas/BitempFirstS.lean) -/
+
+/-- **string selector 'first'**: on every stamp-ordered history `bi_read(store, asof=T, what='first')` is, per date published by
+    `T`, NaN if nothing non-NaN was published by `T`, and otherwise the fold of the publications stamped no later than the date's
+    first non-NaN publication - with distinct stamps literally the first non-NaN value published (`firstNonNanSpec_sortedLt`);
+    versions sharing that stamp override each other as they do for every read (cf. C17-K1). -/
+theorem read_str_first_spec (log : List Version) (h : Ordered log) (T : Option Int) :
+    ∃ st, history log = some st ∧ biReadS st T .first = specFirstS (logRows log) T := by
+  obtain ⟨st, hst, hg, he, _⟩ := history_inv log h.ne h.wf h.stamps
+  refine ⟨st, hst, ?_⟩
+  rw [biReadS_first st (fun d => (hg d).1.le) T]
+  exact firstS_congr he (fun d => (hg d).1)
+    (fun d => (logRows_sorted log h.stamps).sublist List.filter_sublist) T
+
+/-- the same for stamped frames (`Bi` with bumps / `'shift'`, dates in any order) -/
+theorem read_str_first_frames (fs : List Store) (h : OrderedF fs) (T : Option Int) :
+    ∃ st, historyF fs = some st ∧ biReadS st T .first = specFirstS fs.flatten T := by
+  obtain ⟨st, hst, ⟨hg, he, _⟩, hr⟩ := refines_history fs h
+  refine ⟨st, hst, ?_⟩
+  rw [biReadS_first st (fun d => (hg d).1.le) T]
+  exact firstS_congr he (fun d => (hg d).1) hr T
+
+#guard (history demo).map (fun st => biReadS st Option.none .first) == some (specFirstS (logRows demo) Option.none)
+#guard (history demo).map (fun st => biReadS st Option.none .first) == some [(1, some 6), (2, some 7), (3, some 1), (4, none)]
+#guard (history demo).map (fun st => biReadS st (some 11) .last) == some (specRead demo (some 11))
+
+
+/-! ### a frame with ONE value column is the series model: every theorem above transfers to one-column frames -/
+
+/-- the one-column frame version of a series version -/
+def embVersion (v : Version) : Int × TSF := (v.stamp, v.ts.map fun p => (p.1, [p.2]))
+
+/-- **one-column frames**: the frame model run on one-column versions builds exactly the image of the series store, and every
+    integer read of it is the series read with each value wrapped in a one-cell row - for all histories, read times, selectors -/
+theorem frame_one_column (log : List Version) :
+    historyFF (log.map embVersion) = (history log).map emb ∧
+    ∀ (st : Store) (T : Option Int) (n : Int), biReadF (emb st) T n = (biRead st T n).map fun p => (p.1, [p.2]) := by
+  refine ⟨?_, fun st T n => biReadF_emb st T n⟩
+  have hBi : ∀ v : Version, BiF (embVersion v).2 (embVersion v).1 = emb (Bi v.ts v.stamp) := by
+    intro v; simp [BiF, Bi, emb, embVersion, embRow, List.map_map, Function.comp_def]
+  have key : ∀ (l : List Version) (acc : Option Store),
+      (l.map embVersion).foldl (fun st v => some (biMergeF st (BiF v.2 v.1))) (acc.map emb) =
+        (l.foldl (fun st v => some (biMerge st (Bi v.ts v.stamp))) acc).map emb := by
+    intro l
+    induction l with
+    | nil => intro acc; rfl
+    | cons v l ih =>
+      intro acc
+      simp only [List.map_cons, List.foldl_cons, hBi, biMergeF_emb]
+      exact ih (some (biMerge acc (Bi v.ts v.stamp)))
+  exact key log Option.none
 
 end Pyg.Props.C17
